@@ -77,7 +77,7 @@ def gen(ch):
                 b["costs_const"] = 0.1
         b.update(win)
         mode = ch.pick("scale", ["fixed1", "fixed0.5", "fixed2", "fixed3", "free"])
-        norm = ch.pick("norm", [1.0, 2.0, 4.0])
+        norm = ch.pick("norm", [1.0, 2.0, 4.0, 0.5])
         rate = ch.pick("fix_costs", [0.0, 0.1])
         if mode == "free":
             lo, hi = 0.0, 5.0
